@@ -86,6 +86,10 @@ pub fn seed_scalar(class: u64, run_seed: u64) -> Option<Scalar> {
             }
             Option::<Scalar>::from(Scalar::from_canonical_bytes(b)).or(Some(Scalar::from(class)))
         },
+        // special VALUES: a seed is any scalar (the zero scalar, one, the largest canonical scalar)
+        5 => Some(Scalar::ZERO),
+        6 => Some(Scalar::ONE),
+        7 => Some(-Scalar::ONE),
         _ => Some(hash_scalar(&[b"bppv-seed", &class.to_le_bytes(), &run_seed.to_le_bytes()])),
     }
 }
@@ -935,11 +939,34 @@ pub fn run_case(c: &Value, seed: u64, idx: u64) -> (String, Option<String>) {
                 }
                 (okerr(&r).into(), extra)
             },
+            "params_named" => {
+                let named = |k: &str| -> usize {
+                    match c[k].as_str().unwrap() {
+                        "usizemax" => usize::MAX,
+                        "two63" => 1usize << 63,
+                        "two63_plus1" => (1usize << 63) + 1,
+                        "two32" => 1usize << 32,
+                        "u32max" => u32::MAX as usize,
+                        "aaab" => 0xAAAA_AAAA_AAAA_AAABusize,
+                        x => x.parse().unwrap(),
+                    }
+                };
+                let r = RangeParameters::<P>::init(named("nname"), named("cname"), pedersen_std(1));
+                (okerr(&r).into(), None)
+            },
             "stmt" => {
                 let params = RangeParameters::<P>::init(4, u("cap"), pedersen_std(1)).unwrap();
                 let cs: Vec<P> = (0..u("m")).map(|j| alt_point("stmt", j as u64)).collect();
                 let proms: Vec<Option<u64>> = (0..u("np")).map(|j| if j % 2 == 0 { None } else { Some(j as u64) }).collect();
-                let sd = if c["seed"].as_bool().unwrap() { Some(Scalar::from(77u8)) } else { None };
+                let sd = if c["seed"].as_bool().unwrap() {
+                    Some(match c["sval"].as_u64().unwrap_or(0) {
+                        1 => Scalar::ZERO,
+                        2 => -Scalar::ONE,
+                        _ => Scalar::from(77u8),
+                    })
+                } else {
+                    None
+                };
                 let r = RangeStatement::init(params, cs.clone(), proms.clone(), sd);
                 let mut extra = None;
                 if let Ok(s) = &r {
